@@ -47,6 +47,32 @@ def factor_of(r, q):
     return divs
 
 
+def _unfloor(t_):
+    """floor(floor(x) / k) = floor(x / k) for a positive integer k: int(int(x) // 2) and int(x / 2) are the same number for x >= 0"""
+    if not t_:
+        return t_
+    key = "int[div[int["
+    pos = 0
+    while True:
+        i = t_.find(key, pos)
+        if i < 0:
+            return t_
+        j = i + len(key)
+        depth, k = 1, j
+        while k < len(t_) and depth:
+            depth += {"[": 1, "]": -1}.get(t_[k], 0)
+            k += 1
+        inner = t_[j:k - 1]                  # X of int[X]
+        rest = t_[k:]
+        import re
+        m = re.match(r",(\d+)\]\]", rest)
+        if depth == 0 and m:
+            t_ = t_[:i] + "int[div[" + inner + "," + m.group(1) + "]]" + rest[m.end():]
+            pos = 0
+        else:
+            pos = i + 1
+
+
 def run(chk):
     P = chk.P
     chk.rule("R-ROUND", "with x = dt/target: on x > 1 the factor is an integer >= x (ceil); on x < 1 it is the reciprocal of an "
@@ -118,10 +144,16 @@ def run(chk):
                         chk.ob("R-GRID", c + "{interp.fp}", "interpolates the values argument itself", fp.origin == frozenset(["p:values"]),
                                derived="origin %s" % sorted(fp.origin), loc=ip[0].loc)
                         nl = x.length()
+                        summary[(q, pname, even, "len")] = _unfloor(repr(nl).replace("$", ""))
                         base = muls[0] if muls else None
                         if even:
                             okl = nl is not None and all(co.numerator % 2 == 0 and co.denominator == 1 for _, co in nl.t) and \
                                 nl.c % 2 == 0 and any(a.startswith("int[") for a in nl.atoms())
+                            # and it is the even number just below factor*len(values): exactly 2 * int(X / 2) for that X
+                            if okl:
+                                at2 = _unfloor(nl.t[0][0]) if len(nl.t) == 1 else ""
+                                okl = len(nl.t) == 1 and nl.c == 0 and nl.t[0][1] == 2 and at2.startswith("int[div[mul[") and \
+                                    at2.endswith(",2]]") and "n" in at2
                             chk.ob("R-GRID", c + "{even}", "length is 2*int(new_npts/2): even by construction", okl,
                                    derived="length %r" % (nl,), loc=ip[0].loc)
                         else:
@@ -151,7 +183,7 @@ def run(chk):
                                bool(org) and all(t.endswith(".values") or t.endswith("._values") for t in org),
                                derived="origin %s" % sorted(org), loc=rsm[0].loc)
                         nl = (rsm[0].args[1].sym if len(rsm[0].args) > 1 else None)
-                        summary[(q, pname, even, "len")] = repr(nl).replace("$", "")
+                        summary[(q, pname, even, "len")] = _unfloor(repr(nl).replace("$", ""))
     # sibling agreement on the factor rule
     for pname in ("x==1", "x>1", "x<1"):
         for even in (True, False):
@@ -159,6 +191,16 @@ def run(chk):
             chk.ob("R-RS-SIB", "interp_array_to_approx_dt~resample_to_approx_dt(%s,even=%s)" % (pname, even),
                    "both follow the same factor rule", a is not None and a == b, derived="%s vs %s" % (a, b),
                    inconclusive=(a is None or b is None))          # a rule that could not be derived is not a disagreement
+    # and on the number of samples: np.arange(x) of the interpolating sibling has ceil(x) elements, the count handed to scipy's resample is
+    # the same number
+    def _unceil(t_):
+        return t_[5:-1] if (t_ is not None and t_.startswith("ceil[") and t_.endswith("]")) else t_
+    for pname in ("x==1", "x>1", "x<1"):
+        for even in (True, False):
+            a, b = summary.get((ARR, pname, even, "len")), summary.get((RS, pname, even, "len"))
+            chk.ob("R-RS-SIB", "interp_array_to_approx_dt~resample_to_approx_dt(%s,even=%s){samples}" % (pname, even),
+                   "both produce the same number of samples", a is not None and _unceil(a) == _unceil(b), derived="%s vs %s" % (a, b),
+                   inconclusive=(a is None or b is None or a == "None" or b == "None"))
     # object-level forwarder pairs values with dt
     def setup_t(I):
         I.tag_returns = {ARR}
